@@ -80,9 +80,9 @@ def stepL2Mut (st : St) (cmd : List String) (got : String) : Option (St × Verdi
             if rb.wf then
               let r1 := renderRep rb.cloneSrc
               let r2 := renderRep rb.clone
-              if r1 != raS then some ("L2 model of the clone SOURCE = Go representation; model: " ++ r1.take 400)
+              if !ry.wf || !ra.wf then some "well-formed clone and source"
+              else if r1 != raS then some ("L2 model of the clone SOURCE = Go representation; model: " ++ r1.take 400)
               else if r2 != ryS then some ("L2 model of the clone = Go representation; model: " ++ r2.take 400)
-              else if !ry.wf || !ra.wf then some "well-formed clone and source"
               else none
             else none
           some (st', firstFail [
@@ -107,9 +107,9 @@ def stepL2Mut (st : St) (cmd : List String) (got : String) : Option (St × Verdi
           let exact : Verdict :=
             if rb.wf then
               let r := renderRep (sem.f2 rb)
-              if r != raS then some ("L2 mutator model = Go representation; model: " ++ r.take 400)
+              if !ra.wf then some ("well-formed result of " ++ op ++ " on a well-formed receiver")
               else if sem.third2 rb != third then some ("L2 model boolean " ++ sem.third2 rb)
-              else if !ra.wf then some ("well-formed result of " ++ op ++ " on a well-formed receiver")
+              else if r != raS then some ("L2 mutator model = Go representation; model: " ++ r.take 400)
               else none
             else none
           some (st', firstFail [
@@ -136,10 +136,10 @@ def stepL2Mut (st : St) (cmd : List String) (got : String) : Option (St × Verdi
               let my := if self then mx else fArg rx ry
               let r1 := renderRep mx
               let r2 := renderRep my
-              if r1 != rxaS then some ("L2 in-place model = Go representation; model: " ++ r1.take 400)
-              else if r2 != ryaS then some ("L2 model of the ARGUMENT afterwards = Go representation; model: " ++ r2.take 400)
-              else if !rxa.wf then some ("well-formed result of " ++ op ++ " on well-formed operands")
+              if !rxa.wf then some ("well-formed result of " ++ op ++ " on well-formed operands")
               else if !rya.wf then some ("well-formed argument after " ++ op)
+              else if r1 != rxaS then some ("L2 in-place model = Go representation; model: " ++ r1.take 400)
+              else if r2 != ryaS then some ("L2 model of the ARGUMENT afterwards = Go representation; model: " ++ r2.take 400)
               else none
             else none
           some (st', firstFail [
